@@ -140,3 +140,28 @@ func verifC05StringLiteral(n int) {
 
 func VerifHarness_C05_StringLiteral_1() { verifC05StringLiteral(1) }
 func VerifHarness_C05_StringLiteral_2() { verifC05StringLiteral(2) }
+
+// C05-O9: the token stream of a text depends on that text and on the options
+// of THAT call only: the same call made before and after calls with other
+// options (dots allowed / not allowed) and other texts gives the same tokens.
+func VerifHarness_C05_LexerRepeat() {
+	texts := []string{`{service.name="x"}`, `{a="b"} | json x.y="z"`, `rate({a.b=~"c.d"}[1m])`, `a.b.c`}
+	t1 := texts[vsymChoice("text", len(texts))]
+	t2 := texts[vsymChoice("other", len(texts))]
+	dots := vsymBool("dots")
+	first, err1 := Tokenize(t1, TokenizeOptions{AllowDots: dots})
+	// interleaved calls with the opposite and with the same option
+	_, _ = Tokenize(t2, TokenizeOptions{AllowDots: !dots})
+	if vsymBool("thirdCall") {
+		_, _ = Tokenize(t2, TokenizeOptions{AllowDots: dots})
+	}
+	again, err2 := Tokenize(t1, TokenizeOptions{AllowDots: dots})
+	vsymAssert((err1 == nil) == (err2 == nil), "the same call fails or succeeds the same way whatever was lexed before")
+	vsymAssert(len(first) == len(again), "the same call yields the same number of tokens whatever was lexed before")
+	for i := range first {
+		if i < len(again) {
+			vsymAssert(first[i].Type == again[i].Type && first[i].Text == again[i].Text, "the same call yields the same tokens whatever was lexed before (options do not leak between calls)")
+		}
+	}
+	vsymReach("C05_lexer_repeat")
+}
